@@ -1136,9 +1136,22 @@ def c31_history(rng, world):
             ops.append(gen_set(rng, world, with_units=rng.random() < 0.3, with_idx=rng.random() < 0.3))
             ops.append({'op': 'run_model'})
         elif r < 0.3 and nf < 2:
-            ops += gen_faults(rng, world, 1, kinds=('analysis_error',))
-            ops.append({'op': 'run_model'})
-            ops.append({'op': 'run_model'})
+            if rng.random() < 0.5:
+                ops += gen_faults(rng, world, 1, kinds=('analysis_error',))
+                ops.append({'op': 'run_model'})
+                ops.append({'op': 'run_model'})
+            else:
+                # a derivative query that fails half way (the framework's own design variables and responses,
+                # so that it works on the model's shared relevance), then new inputs and an evaluation: what the
+                # failed query left behind must not show in the values
+                ops += gen_faults(rng, world, 1, kinds=('analysis_error',), methods=['compute_partials', 'linearize'])
+                ops[-1]['n'] = 1
+                nr, nd = len(world['resps']), len(world['dvs'])
+                ops.append({'op': 'totals', 'of': list(range(nr)), 'wrt': list(range(nd)), 'fmt': 'flat_dict',
+                            'driver_scaling': False, 'explicit': False})
+                ops.append(gen_set(rng, world))
+                ops.append({'op': 'run_model'})
+                ops.append({'op': 'run_model'})
             nf += 1
         elif r < 0.4:
             ops.append({'op': 'rerun_restored'})
@@ -1271,6 +1284,14 @@ class C31(WorldCheck):
             return False
         if sim.void:
             return True
+        if kind == 'run_model' and raised is None and fired == 0 and sim.clean:
+            # an evaluation is a function of the inputs only: whatever the history did before (failed derivative
+            # queries included), the values are those of the plan's model
+            if not sim.check_values(inv_out='I-31b-values', inv_in=None):
+                viol.extend(sim.viol)
+                return False
+            if sim.void:
+                return True
         if bracket and raised is None and fired == 0:
             probes.inc('readonly_bracketed')
             after = sim.state_bytes()
